@@ -255,7 +255,9 @@ def run_streams(run, want, counts, thorough=False, corpus=()):
         nf = rnd.choice([1, 1, 2, 3, 3, 5])
         histories.append((order, [gen_file(rnd, lens, 30000 if nf > 2 else 65535) for _ in range(nf)]))
     # the boundary sweep: one pre-existing small file, the file under test, one more file (so a spill hits something)
-    for L in (lens if (counts.get("dsk.sweep") and ("dsk.write" in want or "dsk.rt" in want)) else []):
+    sweep = counts.get("dsk.sweep", 0)
+    sweep_lens = lens if sweep >= 2 else [L for L in lens if any(abs(L - k * G) <= 12 for k in (1, 2)) or L in (0, 1, 253, 254, 255, 256, 2813, 65535)]
+    for L in (sweep_lens if (sweep and ("dsk.write" in want or "dsk.rt" in want)) else []):
         for ftype, dtype in ((2, 0), (0, 0), (1, 0xFF)):
             order = gen_order(rnd)
             f = gen_file(rnd, [L])
